@@ -30,6 +30,9 @@ var SkipKinds = map[string]schema.Change{
 	"AddIndex": &schema.AddIndex{}, "DropIndex": &schema.DropIndex{}, "ModifyIndex": &schema.ModifyIndex{},
 	"AddForeignKey": &schema.AddForeignKey{}, "DropForeignKey": &schema.DropForeignKey{}, "ModifyForeignKey": &schema.ModifyForeignKey{},
 	"AddView": &schema.AddView{}, "DropView": &schema.DropView{}, "ModifyView": &schema.ModifyView{},
+	// kinds the library option accepts although the CLI policy block has no field for them
+	"AddCheck": &schema.AddCheck{}, "DropCheck": &schema.DropCheck{}, "ModifyCheck": &schema.ModifyCheck{},
+	"AddAttr": &schema.AddAttr{}, "DropAttr": &schema.DropAttr{}, "ModifyAttr": &schema.ModifyAttr{},
 }
 
 // addViews puts the materialized view(s) of the case on one side (0 = current, 1 = desired).
